@@ -100,10 +100,11 @@ theorem numbers_lt_4096 : Gen.dispatchRows.all (fun r => decide (r.2.2.2 < 4096)
 def sameSet (a b : List String) : Bool :=
   a.length == b.length && a.all b.contains && b.all a.contains
 
-/-- the set of supported numbers equals the set of message features: `all_msgs`, the `message!`
-table and the `include_msg!` list name the same features (without repetition) and the same modules -/
+/-- the set of supported numbers equals the set of message features: what `all_msgs` enables (group
+features followed, leaves counted), the `message!` table and the `include_msg!` list name the same
+features (without repetition) and the same modules -/
 theorem features_agree :
-    sameSet ((Features.lookup Gen.cargoFeatures "all_msgs").getD []) (Gen.dispatchRows.map (·.1)) = true ∧
+    sameSet (Features.msgFeatures Gen.cargoFeatures) (Gen.dispatchRows.map (·.1)) = true ∧
     sameSet (Gen.includeMsgs.map (·.2)) (Gen.dispatchRows.map (·.1)) = true ∧
     sameSet (Gen.includeMsgs.map (·.1)) (Gen.dispatchRows.map (·.2.2.1)) = true ∧
     (Gen.dispatchRows.map (·.1)).Nodup ∧ Gen.includeMsgs.all (fun r => r.1 == r.2) = true := by decide +kernel
